@@ -117,3 +117,27 @@ fn glue_advance_matches_tex() {
         }
     } } }
 }
+
+/// C09: inputs the property text names - \the applied to a non-variable, and errors on lines holding non-ASCII text
+/// (the error is rendered to text: the rendering must not panic either)
+#[test]
+fn named_inputs_never_panic() {
+    std::panic::set_hook(Box::new(|info| { println!("PANICLOC {}", info.to_string().replace('\n', " ")); }));
+    let srcs = [
+        r"\the\relax", r"\the", r"\the a", r"\the\the", r"\the\def", r"\the{", r"\the}",
+        "é\\undefinedcommand", "ééé \\count1=x", "日本語 \\the\\relax", "x\u{301}\\undefinedcommand é", "\\def\\a#1.{}\\a é",
+        "é}", "{é", "\\catcode`é=1 é", "\u{10FFFF}\\undefinedcommand", "\\count300000=1 é", "é\n\n\\undefinedcommand é\n",
+        "\u{feff}\\undefinedcommand", "\t\\undefinedcommand\té", "\\input é", "\\csname é\\endcsname \\undefinedcommand",
+    ];
+    for src in srcs {
+        let src_owned = src.to_string();
+        let r = std::panic::catch_unwind(move || {
+            let mut vm = vm::VM::<StdLibState>::new();
+            vm.push_source("input.tex", src_owned).unwrap();
+            match crate::script::run_to_string(&mut vm) { Ok(s) => s, Err(err) => format!("{err}") }
+        });
+        if r.is_err() {
+            println!("WITNESS {{\"fn\": \"run\", \"source\": \"{}\", \"observed\": \"panic\", \"expected\": \"success or a structured error that renders to text\"}}", src.escape_default().to_string().replace('"', "'"));
+        }
+    }
+}
